@@ -968,4 +968,38 @@ pub mod verif {
     pub fn prepare_to_send(pkt: &super::dnspkt::DNSPkt, size: usize) -> Vec<u8> {
         super::DnsListenerHandler::prepare_to_send(pkt, size)
     }
+
+    /// The per-source limiter and the rate-limiting decision of the UDP listener.
+    pub struct VerifLimiter(super::IpRateLimiter);
+
+    impl Default for VerifLimiter {
+        fn default() -> Self {
+            Self::new()
+        }
+    }
+
+    impl VerifLimiter {
+        pub fn new() -> Self {
+            Self(super::IpRateLimiter::new())
+        }
+
+        pub async fn check(&self, ip: std::net::IpAddr, bytes: usize) -> bool {
+            self.0.check(ip, bytes).await
+        }
+
+        pub async fn should_ratelimit(
+            &self,
+            msg: &super::DnsMessage,
+            in_reply: &super::dnspkt::DNSPkt,
+            in_reply_serialised: &[u8],
+        ) -> bool {
+            super::DnsListenerHandler::should_ratelimit(msg, in_reply, in_reply_serialised, &self.0)
+                .await
+        }
+    }
+
+    /// Advances the limiter's clock for the calling thread.
+    pub fn limiter_clock_advance(secs: u32) {
+        super::bucket::VERIF_CLOCK_SHIFT.with(|s| s.set(s.get().wrapping_add(secs)));
+    }
 }
